@@ -893,6 +893,21 @@ static int32_t tls13ParseHandshakeMessage(ssl_t *ssl,
     hsMsgStart = pb.buf.start;
 # endif
 
+    /* Same limit as the TLS 1.2 and below handshake layer: the peer must
+       not be able to make us allocate an arbitrarily large reassembly
+       buffer. */
+# ifdef SSL_DEFAULT_IN_HS_SIZE
+    if (hsMsgLen > SSL_DEFAULT_IN_HS_SIZE)
+# else
+    if (hsMsgLen > 65536)
+# endif
+    {
+        ssl->err = SSL_ALERT_DECODE_ERROR;
+        psTraceErrr("Maximum handshake message length exceeded.\n");
+        rc = MATRIXSSL_ERROR;
+        goto exit;
+    }
+
     rc = psParseCanRead(&pb, hsMsgLen);
     if (rc == 0)
     {
